@@ -272,6 +272,9 @@ class Ctx:
                     res.violated = m.group(1)
                 if 'Temporal properties were violated' in line:
                     res.violated = res.violated or 'temporal'
+                m = re.match(r'Error: Temporal property (\S+) was violated', line)
+                if m:
+                    res.violated = res.violated or m.group(1)
                 if re.search(r'Postcondition .* is false|POSTCONDITION.*(violated|false)', line) or 'evaluated to FALSE' in line and 'ostcondition' in line:
                     res.postcondition_false = True
                 if line.startswith('Error:') and not res.violated:
@@ -352,6 +355,10 @@ class Ctx:
             if prefix >= len(evs):
                 raise Inconclusive('trace validation %s: bad prefix %d' % (module, prefix))
             ti, k = owner[prefix]      # first unmatched event (0-based index = matched prefix length)
+            if k == -1 and live.index(ti) > 0:
+                # a trace spec whose reset action has a guard on how the trace before it ended: the culprit is that trace
+                ti = live[live.index(ti) - 1]
+                k = len(traces[ti])
             rejected.append((ti, k))
             live.remove(ti)
             if len(rejected) >= max_rejects:
